@@ -103,7 +103,9 @@ var (
 	correlatedIDs = []string{"", "build-A", "build-B"}
 	toolIDs       = []string{"", "inv-1", "inv-2", "inv-3"}
 	mnemonics     = []string{"", "Cc", "Java"}
-	priorities    = []int32{0, 0, -100, 7, 100}
+	// The two extreme values are more than 2^31 apart: REv2 priorities are
+	// arbitrary int32 values.
+	priorities = []int32{0, 0, -100, 7, 100, -2147483600, 2147483000}
 )
 
 func newClient(w *world, idx int) *client {
@@ -406,7 +408,7 @@ func (wa *workerActor) completion(success bool) *remoteexecution.ExecuteResponse
 	marker := wa.nextMarker()
 	kind := 0
 	if !success {
-		kind = t.Weighted([]int{6, 2, 2, 1})
+		kind = t.Weighted([]int{6, 2, 2, 1, 1})
 	}
 	resp := &remoteexecution.ExecuteResponse{Message: marker, Result: &remoteexecution.ActionResult{
 		ExecutionMetadata: &remoteexecution.ExecutedActionMetadata{VirtualExecutionDuration: durationpb.New(pick(t, []time.Duration{time.Second, 7 * time.Second}))},
@@ -418,6 +420,9 @@ func (wa *workerActor) completion(success bool) *remoteexecution.ExecuteResponse
 		resp.Status = &status_pb.Status{Code: int32(codes.DeadlineExceeded), Message: "timed out " + marker}
 	case 3:
 		resp.Status = &status_pb.Status{Code: int32(codes.Internal), Message: "worker failure " + marker}
+	case 4:
+		// A completion report that carries no ActionResult at all.
+		resp.Result = nil
 	}
 	return resp
 }
@@ -560,7 +565,22 @@ func (o *operatorActor) loop() {
 			o.blocking = false
 		case 5:
 			desc = "ListOperations"
-			_, err = w.bq.ListOperations(o.ctx, &buildqueuestate.ListOperationsRequest{PageSize: 100})
+			var lr *buildqueuestate.ListOperationsResponse
+			lr, err = w.bq.ListOperations(o.ctx, &buildqueuestate.ListOperationsRequest{PageSize: 100})
+			// Names an operator can see are names anybody may pass to
+			// WaitExecution, including those of operations no client
+			// started (background runs on another size class).
+			if err == nil {
+				for _, op := range lr.Operations {
+					known := false
+					for _, n := range w.knownNames {
+						known = known || n == op.Name
+					}
+					if !known {
+						w.knownNames = append(w.knownNames, op.Name)
+					}
+				}
+			}
 		case 6:
 			desc = "ListWorkers"
 			_, err = w.bq.ListWorkers(o.ctx, &buildqueuestate.ListWorkersRequest{PageSize: 100, Filter: &buildqueuestate.ListWorkersRequest_Filter{Type: &buildqueuestate.ListWorkersRequest_Filter_All{All: qn}}})
